@@ -99,22 +99,40 @@ struct Beh {
   }
 };
 
+// true when the behaviour has at least one flow with a threshold (an elastic-loading branch exists)
+template <typename B>
+constexpr bool has_threshold() {
+  return requires(B b) { b.bpl; } || requires(B b) { b.bpl0; } || requires(B b) { b.bpl1; } || requires(B b) { b.bpl2; };
+}
+// no flow is active (every flag false)
+template <typename B>
+bool elastic_branch(const B& b) {
+  bool r = has_threshold<B>();
+  if constexpr (requires { b.bpl; }) r = r && !b.bpl;
+  if constexpr (requires { b.bpl0; }) r = r && !b.bpl0;
+  if constexpr (requires { b.bpl1; }) r = r && !b.bpl1;
+  if constexpr (requires { b.bpl2; }) r = r && !b.bpl2;
+  return r;
+}
 template <typename B>
 bool plastic_branch(const B& b) {
-  if constexpr (requires { b.bpl; }) {
-    return b.bpl;
-  } else {
-    return true;
-  }
+  // one flag per inelastic flow with a threshold (bpl, or bpl0, bpl1.. when the brick has several flows)
+  bool r = true;
+  if constexpr (requires { b.bpl; }) r = r && b.bpl;
+  if constexpr (requires { b.bpl0; }) r = r && b.bpl0;
+  if constexpr (requires { b.bpl1; }) r = r && b.bpl1;
+  if constexpr (requires { b.bpl2; }) r = r && b.bpl2;
+  return r;
 }
 
 template <Hyp h, typename T>
-std::vector<T> fdf(const std::vector<T>& in, const std::vector<T>& z, bool* bpl = nullptr, std::vector<T>* sig = nullptr) {
+std::vector<T> fdf(const std::vector<T>& in, const std::vector<T>& z, bool* bpl = nullptr, std::vector<T>* sig = nullptr, bool* bel = nullptr) {
   Beh<h, T> w(in);
   if (!w.b->initialize()) throw std::runtime_error("initialize failed");
   for (int i = 0; i < w.n; ++i) w.b->zeros(i) = z[i];
   w.b->computeThermodynamicForces();
   if (bpl != nullptr) *bpl = plastic_branch(*(w.b));
+  if (bel != nullptr) *bel = elastic_branch(*(w.b));
   if (sig != nullptr) {
     sig->clear();
     for (int i = 0; i < Beh<h, T>::S; ++i) sig->push_back(w.b->sig[i]);
@@ -144,6 +162,68 @@ inline double lode_deg(const std::vector<double>& sg) {
   return std::asin(arg) / 3 * 180 / 3.14159265358979323846;
 }
 
+#ifndef BEH_TENSOR_SCALE
+#define BEH_TENSOR_SCALE 1e-4
+#endif
+
+// random rotation matrix (Gram-Schmidt), columns = principal directions
+inline void random_rotation(gsym::Rng& rng, double q[3][3]) {
+  for (;;) {
+    double a[3], b[3];
+    for (int i = 0; i < 3; ++i) a[i] = rng.range(-1, 1), b[i] = rng.range(-1, 1);
+    const double na = std::sqrt(a[0] * a[0] + a[1] * a[1] + a[2] * a[2]);
+    if (na < 0.2) continue;
+    for (int i = 0; i < 3; ++i) a[i] /= na;
+    const double ab = a[0] * b[0] + a[1] * b[1] + a[2] * b[2];
+    for (int i = 0; i < 3; ++i) b[i] -= ab * a[i];
+    const double nb = std::sqrt(b[0] * b[0] + b[1] * b[1] + b[2] * b[2]);
+    if (nb < 0.2) continue;
+    for (int i = 0; i < 3; ++i) b[i] /= nb;
+    const double cc[3] = {a[1] * b[2] - a[2] * b[1], a[2] * b[0] - a[0] * b[2], a[0] * b[1] - a[1] * b[0]};
+    for (int i = 0; i < 3; ++i) q[i][0] = a[i], q[i][1] = b[i], q[i][2] = cc[i];
+    return;
+  }
+}
+// elastic strain (isotropic Hooke law, TFEL storage, 6 components) of the stress Q diag(pr) Q^T
+inline void strain_of_principal_stress(const double pr[3], const double q[3][3], double young, double nu, double e[6]) {
+  double sg[3][3];
+  for (int i = 0; i < 3; ++i)
+    for (int j = 0; j < 3; ++j) {
+      sg[i][j] = 0;
+      for (int k = 0; k < 3; ++k) sg[i][j] += q[i][k] * pr[k] * q[j][k];
+    }
+  const double trs = sg[0][0] + sg[1][1] + sg[2][2], c = std::sqrt(2.);
+  e[0] = ((1 + nu) * sg[0][0] - nu * trs) / young;
+  e[1] = ((1 + nu) * sg[1][1] - nu * trs) / young;
+  e[2] = ((1 + nu) * sg[2][2] - nu * trs) / young;
+  e[3] = (1 + nu) * sg[0][1] / young * c;
+  e[4] = (1 + nu) * sg[0][2] / young * c;
+  e[5] = (1 + nu) * sg[1][2] / young * c;
+}
+
+// analytical jacobian of the double code vs centred differences of its fzeros at (in, z); d = fdf<h,double>(in, z).
+// Returns the worst relative error (rounding of the difference quotient allowed for) and its entry.
+template <Hyp h>
+double nj_worst(const std::vector<double>& in, const std::vector<double>& z, const std::vector<double>& d, int n, int& wi, int& wj,
+                double& wa, double& wn) {
+  double worst = 0;
+  for (int j = 0; j < n; ++j) {
+    const double hst = 1e-4 * std::max(1e-6, std::fabs(z[j]));
+    auto zp = z, zm = z;
+    zp[j] += hst;
+    zm[j] -= hst;
+    auto fp = fdf<h, double>(in, zp), fm = fdf<h, double>(in, zm);
+    for (int i = 0; i < n; ++i) {
+      const double num = (fp[i] - fm[i]) / (2 * hst), ana = d[n + n * i + j];
+      // rounding of the difference quotient: a few ulps of the residual divided by the step
+      const double rnd = 16 * 2.3e-16 * std::max({std::fabs(fp[i]), std::fabs(fm[i]), std::fabs(z[i])}) / (2 * hst);
+      const double err = std::max(0., std::fabs(num - ana) - rnd) / std::max({std::fabs(num), std::fabs(ana), 1e-3});
+      if (err > worst) worst = err, wi = i, wj = j, wa = ana, wn = num;
+    }
+  }
+  return worst;
+}
+
 template <Hyp h>
 void doit(Trace& tr, const std::string& tag, uint64_t seed, int ncases) {
   constexpr int S = ModellingHypothesisToStensorSize<h>::value;
@@ -160,8 +240,11 @@ void doit(Trace& tr, const std::string& tag, uint64_t seed, int ncases) {
   gall.push_back({"z", n});
   auto nm = names(gall);
   Rng rng(seed + 300 + S);
-  double young = 1e5, nu = 0.3, R0 = 100;
+  double young = 1e5, nu = 0.3, R0 = 100, theta_d = 1;
+  std::vector<double> tie_strain;  // BEH_EIGEN_TIES: elastic strain that the iterate eel + theta deel of the current state must have
+  int tie_kind = 0;
   for (size_t i = 0; i < pn.size(); ++i) {
+    if (pn[i] == "theta") theta_d = pd[i];
     if (pn[i] == "young") young = pd[i];
     if (pn[i] == "nu") nu = pd[i];
     if (pn[i] == "ihr_R0_") R0 = pd[i];
@@ -217,21 +300,48 @@ void doit(Trace& tr, const std::string& tag, uint64_t seed, int ncases) {
       de = std::pow(10., rng.range(-6.5, -5.5));  // small increments: the Lode angle of the iterate stays that of the state
     }
 #endif
+#ifdef BEH_EIGEN_TIES
+    // stresses with two equal eigenvalues at the iterate (exactly in the principal frame; up to rounding after a rotation):
+    // kind 0: generic state; 1..3: principal stresses (a,a,b), (a,b,b), (a,b,a); frame: the axes (S = 3, or one case out of two) or random
+    tie_strain.clear();
+    tie_kind = plastic ? static_cast<int>(rng.below(4)) : 0;
+    if (tie_kind != 0) {
+      const double a = rng.range(-100, 100), dlt = (rng.below(2) ? 1. : -1.) * rng.range(1.5, 3.) * R0;
+      const double pr[3] = {a, tie_kind == 1 ? a : a + dlt, tie_kind == 2 ? a + dlt : (tie_kind == 3 ? a : a + dlt)};
+      double q[3][3] = {{1, 0, 0}, {0, 1, 0}, {0, 0, 1}};
+      if (S == 6 && rng.below(2) == 0) random_rotation(rng, q);
+      double e[6];
+      strain_of_principal_stress(pr, q, young, nu, e);
+      for (int i = 0; i < S; ++i) tie_strain.push_back(e[i]);
+      for (int i = 0; i < S; ++i) in[i] = e[i];
+    }
+#endif
     for (int i = 0; i < S; ++i) in.push_back((0.8 * dir[i] + 0.2 * rng.range(-1, 1)) * de);
     for (size_t t = 0; t < tn.size(); ++t)
-      for (int i = 0; i < S; ++i) in.push_back(rng.range(-1, 1) * 1e-4);
+      for (int i = 0; i < S; ++i) in.push_back(rng.range(-1, 1) * (BEH_TENSOR_SCALE));
     for (size_t s = 0; s < sn.size(); ++s) in.push_back(rng.range(0, 1e-3));
     in.push_back(std::pow(10., rng.range(-1, 1)));
-    for (size_t i = 0; i < pn.size(); ++i) in.push_back(pd[i]);
+    // parameters: declared values, except theta (declared 1 in the .mfront files): two states out of three use a theta in [0.5, 1]
+    // so that a factor theta missing or doubled in a jacobian block is seen by the numerical differentiation
+    const bool vary_theta = rng.below(3) != 0;
+    for (size_t i = 0; i < pn.size(); ++i) in.push_back(pn[i] == "theta" && vary_theta ? rng.range(0.5, 1.) : pd[i]);
     return in;
   };
   auto rand_z = [&](const std::vector<double>& in) {
     std::vector<double> z;
     for (int i = 0; i < S; ++i) z.push_back(in[S + i] * rng.range(0.1, 0.5));
     for (size_t t = 0; t < tn.size(); ++t)
-      for (int i = 0; i < S; ++i) z.push_back(rng.range(-1, 1) * 1e-5);
+      for (int i = 0; i < S; ++i) z.push_back(rng.range(-1, 1) * (BEH_TENSOR_SCALE) / 10);
     for (size_t s = 0; s < sn.size(); ++s) z.push_back(std::pow(10., rng.range(-6, -4)));
     return z;
+  };
+  // BEH_EIGEN_TIES: the state is shifted so that eel + theta deel is the strain of the stress with the eigenvalue tie
+  auto apply_tie = [&](std::vector<double>& in, const std::vector<double>& z) {
+    if (tie_strain.empty()) return;
+    double th = theta_d;
+    for (size_t i = 0; i < pn.size(); ++i)
+      if (pn[i] == "theta") th = in[in.size() - pn.size() + i];
+    for (int i = 0; i < S; ++i) in[i] = tie_strain[i] - th * z[i];
   };
   auto mkenv = [&](const std::vector<double>& in, const std::vector<double>& z) {
     Env env;
@@ -251,6 +361,7 @@ void doit(Trace& tr, const std::string& tag, uint64_t seed, int ncases) {
   for (int t = 0; t < 200 && !found; ++t) {
     auto in0 = rand_in(true);
     auto z0 = rand_z(in0);
+    apply_tie(in0, z0);
     bool bpl0 = false;
     fdf<h, double>(in0, z0, &bpl0);
     if (!bpl0) continue;
@@ -263,29 +374,73 @@ void doit(Trace& tr, const std::string& tag, uint64_t seed, int ncases) {
   def_cond(tr, bt + "_cond_" + tag, pall, L0);
   tr.def(bt + "_fz_" + tag, pall, fz);
   tr.def(bt + "_jac_" + tag, pall, jac);
+  // elastic-loading leaf (every flow inactive), when the behaviour has a threshold: <tag>_econd_<h>, <tag>_efz_<h>, <tag>_ejac_<h>
+  Leaf Le0;
+  bool efound = false;
+  if constexpr (has_threshold<BehT<h, double>>()) {
+    for (int t = 0; t < 200 && !efound; ++t) {
+      auto in0 = rand_in(false);
+      auto z0 = rand_z(in0);
+      bool bpl0 = false, bel0 = false;
+      fdf<h, double>(in0, z0, &bpl0, nullptr, &bel0);
+      if (!bel0) continue;
+      Le0 = leaf_at(f_fdf, mkenv(in0, z0));
+      if (!Le0.error.empty()) throw std::runtime_error("elastic reference leaf failed: " + Le0.error);
+      efound = true;
+    }
+    if (!efound) throw std::runtime_error("no elastic-loading reference state");
+    std::vector<Sym> efz(Le0.out.begin(), Le0.out.begin() + n), ejac(Le0.out.begin() + n, Le0.out.end());
+    def_cond(tr, bt + "_econd_" + tag, pall, Le0);
+    tr.def(bt + "_efz_" + tag, pall, efz);
+    tr.def(bt + "_ejac_" + tag, pall, ejac);
+  }
 #endif
   Agree ag;
-  long onref = 0, njbad = 0, nj = 0, ncorner = 0;
+  long onref = 0, njbad = 0, nj = 0, ncorner = 0, nel = 0, nties = 0, nonfinite = 0;
   for (int c = 0; c < ncases; ++c) {
     auto in = rand_in(c % 5 != 4);
     auto z = rand_z(in);
-    bool bpl = true;
+    apply_tie(in, z);
+    bool bpl = true, bel = false;
     std::vector<double> sg;
-    auto d = fdf<h, double>(in, z, &bpl, &sg);
+    auto d = fdf<h, double>(in, z, &bpl, &sg, &bel);
 #ifndef BEH_DOUBLE_ONLY
     Env env = mkenv(in, z);
     Leaf L = leaf_at(f_fdf, env);
     if (!L.error.empty()) continue;
     const bool ref = same_path(L, L0);
+    const bool eref = efound && same_path(L, Le0);
     std::vector<long double> sc(d.size(), 1e-30L);
     long double e = 0;
     for (int i = 0; i < 2 * S; ++i) e = std::max<long double>(e, std::fabs(in[i]));
     for (int i = 0; i < n; ++i) sc[i] = e;
     for (size_t i = n; i < d.size(); ++i) sc[i] = 1e-6L;
+    // a state whose double evaluation is not finite (e.g. pow of a negative flow argument at an iterate below the threshold) is
+    // counted apart: there is nothing to compare
+    bool finite = true;
+    for (double x : d) finite = finite && std::isfinite(x);
+    if (!finite) {
+      ++nonfinite;
+      continue;
+    }
     ag.cmpv(eval_all(L.out, env), d, sc, 1e-9L);
 #else
     const bool ref = bpl && (c % 5 != 4);
+    const bool eref = bel;
 #endif
+    // elastic-loading path: same search (the jacobian is the identity there)
+    if (eref && nel < 40) {
+      ++nel;
+      int wi = 0, wj = 0;
+      double wa = 0, wn = 0;
+      if (nj_worst<h>(in, z, d, n, wi, wj, wa, wn) > 1e-3) {
+        ++njbad;
+        std::printf("NJ-FAIL %s %s i %d j %d analytical %.10g numerical %.10g lode %.4g", bt.c_str(), tag.c_str(), wi, wj, wa, wn, 0.);
+        print_vec("in", in);
+        print_vec("z", z);
+        std::printf("\n");
+      }
+    }
     if (ref) ++onref;
     // failing-input search: analytical jacobian vs centred differences of fzeros (double code), on the reference path only
     if (ref && nj < 200) {
@@ -297,23 +452,10 @@ void doit(Trace& tr, const std::string& tag, uint64_t seed, int ncases) {
       const bool corner = false;
 #endif
       if (corner) ++ncorner;
-      double worst = 0;
+      if (tie_kind != 0) ++nties;
       int wi = 0, wj = 0;
       double wa = 0, wn = 0;
-      for (int j = 0; j < n; ++j) {
-        const double hst = 1e-4 * std::max(1e-6, std::fabs(z[j]));
-        auto zp = z, zm = z;
-        zp[j] += hst;
-        zm[j] -= hst;
-        auto fp = fdf<h, double>(in, zp), fm = fdf<h, double>(in, zm);
-        for (int i = 0; i < n; ++i) {
-          const double num = (fp[i] - fm[i]) / (2 * hst), ana = d[n + n * i + j];
-          // rounding of the difference quotient: a few ulps of the residual divided by the step
-          const double rnd = 16 * 2.3e-16 * std::max({std::fabs(fp[i]), std::fabs(fm[i]), std::fabs(z[i])}) / (2 * hst);
-          const double err = std::max(0., std::fabs(num - ana) - rnd) / std::max({std::fabs(num), std::fabs(ana), 1e-3});
-          if (err > worst) worst = err, wi = i, wj = j, wa = ana, wn = num;
-        }
-      }
+      const double worst = nj_worst<h>(in, z, d, n, wi, wj, wa, wn);
       if (worst > 1e-3) {
         ++njbad;
         std::printf("NJ-FAIL %s %s i %d j %d analytical %.10g numerical %.10g lode %.4g", bt.c_str(), tag.c_str(), wi, wj, wa, wn, lode);
@@ -324,9 +466,9 @@ void doit(Trace& tr, const std::string& tag, uint64_t seed, int ncases) {
     }
   }
 #ifndef BEH_DOUBLE_ONLY
-  std::printf("AGREE %s-fdf %s n=%ld bad=%ld worst=%.3Lg onref=%ld\n", bt.c_str(), tag.c_str(), ag.n, ag.bad, ag.worst, onref);
+  std::printf("AGREE %s-fdf %s n=%ld bad=%ld worst=%.3Lg onref=%ld nonfinite=%ld\n", bt.c_str(), tag.c_str(), ag.n, ag.bad, ag.worst, onref, nonfinite);
 #endif
-  std::printf("NJ %s %s n=%ld bad=%ld corner=%ld\n", bt.c_str(), tag.c_str(), nj, njbad, ncorner);
+  std::printf("NJ %s %s n=%ld bad=%ld corner=%ld elastic=%ld ties=%ld\n", bt.c_str(), tag.c_str(), nj, njbad, ncorner, nel, nties);
 }
 
 int main(int argc, char** argv) {
